@@ -118,11 +118,36 @@ pub fn sweep_forms() -> Vec<(bool, u8, u8, u8)> {
     for op in 0..=255u8 {
         v.push((true, op, 5, op & 7));
     }
+    // immediate forms: one block per immediate value (256 blocks of the same form in one image)
+    for op in [0xc6u8, 0xce, 0xd6, 0xde, 0xe6, 0xee, 0xf6, 0xfe] {
+        v.push((false, op, 6, 0));
+    }
+    // LD A,(HL+) / LD A,(HL-): every value of HL
+    v.push((false, 0x2a, 7, 0));
+    v.push((false, 0x3a, 7, 0));
+    // ADD SP,e8 (followed by LD HL,SP+0 in the same block, which shows what the first left in the host's SP register) and
+    // LD HL,SP+e8: every e8 x 2048 values of SP (every low byte x 8 high bytes)
+    v.push((false, 0xe8, 8, 0));
+    v.push((false, 0xf8, 8, 0));
     v
 }
 
+/// bytes of the ROM image of a sweep case (placed at SWEEP_PC)
+pub fn sweep_code(cb: bool, opc: u8, kind: u8) -> Vec<u8> {
+    let jp = [0xc3, SWEEP_PC as u8, (SWEEP_PC >> 8) as u8];
+    match kind {
+        6 => (0..=255u8).flat_map(|imm| [opc, imm, jp[0], jp[1], jp[2], 0, 0, 0]).collect(),
+        8 => (0..=255u8).flat_map(|imm| if opc == 0xe8 { [opc, imm, 0xf8, 0x00, jp[0], jp[1], jp[2], 0] } else { [opc, imm, jp[0], jp[1], jp[2], 0, 0, 0] }).collect(),
+        _ => {
+            let mut code: Vec<u8> = if cb { vec![0xcb, opc] } else { vec![opc] };
+            code.extend(jp);
+            code
+        }
+    }
+}
+
 const SWEEP_PC: u32 = 0x0200;
-const SWEEP_STRIDE: u64 = 477;
+const SWEEP_STRIDE: u64 = 460;
 const SWEEP_MEM: u16 = 0xc100;
 
 fn put8(r: &mut Regs, idx: u8, v: u8) {
@@ -150,11 +175,19 @@ fn put16(r: &mut Regs, idx: u8, v: u16) {
 
 /// Runs one form over its operand space; returns the first disagreement.
 fn sweep(j: &mut dyn Machine, i: &mut dyn Machine, cb: bool, opc: u8, kind: u8, operand: u8, focus_c02: bool, ctx: &mut Ctx, opi: usize) -> Option<Violation> {
+    // the bus-trace hook (H1) keeps its buffer in a lazily initialised thread-local: touch it from Rust code first. Three of the
+    // emitter's helper-call templates (emit_memory_read, emit_hl_indirect_read, emit_hl_indirect_partial_write) call the bus
+    // helpers with rsp = 8 (mod 16); the production helpers do not care, but the thread-local's first-use initialisation
+    // (movaps on the stack) does - that would be a crash caused by the hook, not by the code under test
+    j.trace_start();
+    let _ = j.trace_take();
+    i.trace_start();
+    let _ = i.trace_take();
     let base = Regs { af: 0x5a00, bc: 0x1234, de: 0x5678, hl: 0x9abc, sp: 0xdff0, ip: SWEEP_PC, cycles: 0 };
     let uses_mem = |idx: u8| idx == 6;
     // LD r,r' : destination may be (HL) as well
     let dst = if kind == 4 { (opc >> 3) & 7 } else { operand };
-    let mem_form = kind != 2 && kind != 3 && kind != 1 && (uses_mem(operand) || uses_mem(dst));
+    let mem_form = kind != 2 && kind != 3 && kind != 1 && kind < 6 && (uses_mem(operand) || uses_mem(dst));
     let mut n: u64 = 0;
     let mut check = |r: Regs, memv: Option<u8>, what: &dyn Fn() -> String, j: &mut dyn Machine, i: &mut dyn Machine| -> Option<Violation> {
         j.set_regs(r);
@@ -265,6 +298,47 @@ fn sweep(j: &mut dyn Machine, i: &mut dyn Machine, cb: bool, opc: u8, kind: u8, 
                 }
             }
         }
+        6 => {
+            for imm in 0..=255u32 {
+                for a in 0..=255u32 {
+                    for f in [0x00u32, 0x10, 0xe0, 0xf0] {
+                        let mut r = base;
+                        r.ip = SWEEP_PC + 8 * imm;
+                        r.af = a << 8 | f;
+                        n += 1;
+                        if let Some(x) = check(r, None, &|| format!("{} A={:#04x} d8={:#04x} F={:#04x}", name, a, imm, f), j, i) {
+                            return Some(x);
+                        }
+                    }
+                }
+            }
+        }
+        7 => {
+            for hl in 0..=0xffffu32 {
+                let mut r = base;
+                r.hl = hl;
+                n += 1;
+                if let Some(x) = check(r, None, &|| format!("{} HL={:#06x}", name, hl), j, i) {
+                    return Some(x);
+                }
+            }
+        }
+        8 => {
+            for imm in 0..=255u32 {
+                for hi in [0x00u32, 0x0f, 0x10, 0x7f, 0x80, 0xc0, 0xfe, 0xff] {
+                    for lo in 0..=255u32 {
+                        let mut r = base;
+                        r.ip = SWEEP_PC + 8 * imm;
+                        r.sp = hi << 8 | lo;
+                        r.af = (r.af & 0xff00) | if lo & 1 == 0 { 0x00 } else { 0xf0 };
+                        n += 1;
+                        if let Some(x) = check(r, None, &|| format!("{} SP={:#06x} e8={:#04x}", name, hi << 8 | lo, imm), j, i) {
+                            return Some(x);
+                        }
+                    }
+                }
+            }
+        }
         _ => {
             for v in 0..=255u8 {
                 for f in [0x00u32, 0xf0] {
@@ -309,7 +383,7 @@ impl Scenario for BlockLockstep {
     }
     fn info(&self) -> Info {
         Info {
-            rule: "one case = one generated cartridge + one basic block (0..N defined non-terminating instructions + one terminator; run index i forces encoding i mod 500 to be the last body instruction or the terminator) placed in ROM, a drawn CPU/RAM/device state, and a cache-age schedule (cold, warm re-execution from a second state, flush between executions, arena pre-filled to a drawn offset); executed by CodeCache translate+call on replica J and by interpreter::run_code_block on replica I (25%: Core::run_code_block of the jit crate vs the non-jit crate). 419 cases per batch are exhaustive operand sweeps instead (one register-only 8-bit form each, over its whole operand and flag space in both engines; counter sweep_executions, reach set swept_forms). distinct_nontrivial = distinct (focus encoding, flags-in, HL region, SP region, cache age) cells in which the block executed to completion in both engines",
+            rule: "one case = one generated cartridge + one basic block (0..N defined non-terminating instructions + one terminator; run index i forces encoding i mod 500 to be the last body instruction or the terminator) placed in ROM, a drawn CPU/RAM/device state, and a cache-age schedule (cold, warm re-execution from a second state, flush between executions, arena pre-filled to a drawn offset); executed by CodeCache translate+call on replica J and by interpreter::run_code_block on replica I (25%: Core::run_code_block of the jit crate vs the non-jit crate). 431 cases per batch are exhaustive operand sweeps instead (one register-only, immediate or pointer form each, over its whole operand and flag space in both engines; counter sweep_executions, reach set swept_forms). distinct_nontrivial = distinct (focus encoding, flags-in, HL region, SP region, cache age) cells in which the block executed to completion in both engines",
             components_real: &["emitter::x86_64 (all encode_* templates reached by the generated blocks)", "cache::CodeCache translate_code_block/call/get_address_for_ip", "interpreter::run_code_block", "decoder::decode", "mem bus helpers, IO, cart state", "Core::run_code_block tail (mode 1)"],
             components_stub: &["devices are real but only advanced during set-up (and in the mode-1 tail)", "host window / event loop absent"],
             assumptions: &["the 11 undefined opcodes are not generated", "blocks stay inside one ROM region (no instruction straddles 0x3FFF/0x4000 or runs past 0x7FFF)", "cartridges have 32 KiB cartridge RAM and bank selections are within the ROM, so no access is C11's subject", "captured stdout is not compared here (C18/C04)"],
@@ -349,13 +423,12 @@ impl Scenario for BlockLockstep {
             case.push("exec", &[]);
             return;
         }
-        // operand-sweep stratum: every SWEEP_STRIDE-th index up to 419 x SWEEP_STRIDE (inside the quick batch of 200000, spread
+        // operand-sweep stratum: every SWEEP_STRIDE-th index up to 431 x SWEEP_STRIDE (inside the quick batch of 200000, spread
         // over the workers' chunks) is an exhaustive sweep of one form; independent of VERIF_SEED
         let forms = sweep_forms();
         if index % SWEEP_STRIDE == 0 && ((index / SWEEP_STRIDE) as usize) < forms.len() {
             let (cb, opc, kind, operand) = forms[(index / SWEEP_STRIDE) as usize];
-            let mut code: Vec<u8> = if cb { vec![0xcb, opc] } else { vec![opc] };
-            code.extend([0xc3, SWEEP_PC as u8, (SWEEP_PC >> 8) as u8]);
+            let code = sweep_code(cb, opc, kind);
             case.set("focus", if cb { 0x100 } else { 0 } | opc as i64);
             case.set("cart_type", 0);
             case.set("rom_code", 0);
